@@ -98,13 +98,13 @@ def digests_equal(a, b, rtol=1e-9):
 
 
 def run_traced(cfg: dict, n_steps: int, schedule: Schedule | None = None, env: tracer.TableEnv | None = None,
-               ref_digests=None, split=None, db_path="sqlite://"):
+               ref_digests=None, split=None, db_path="sqlite://", events_meta=None):
     """Build the real scenario, run it with propagateTo, return (events, per-step digests, app)."""
     if env is not None:
         tracer.install_table_env()
     app = su.build(cfg, db_path=db_path)
     sched.set_chooser(schedule)
-    rec = tracer.start(app, env)
+    rec = tracer.start(app, env, events_meta)
     digests = []
     dt = float(app.clock.dt_step)
     try:
@@ -140,21 +140,30 @@ def _propagate_with_digests(app, seconds, rec, digests, ref):
         del app.stepForward
 
 
-def group_constants(app, cfg, n_span_steps, out_every, flags=None):
-    eng = app.tasking_engines
-    tids = sorted(app.target_agents)
-    sids = sorted(app.sensor_agents)
+def group_constants(app, cfg, n_span_steps, out_every, flags=None, events_meta=None):
+    """Constants of Resonaate.tla for one scenario configuration (from the CONFIG, not the final state)."""
+    events_meta = events_meta or []
+    engs = {}
+    init_t, init_s = [], []
+    for e in cfg["engines"]:
+        ts = [tracer.T(t["id"]) for t in e["targets"]]
+        ss = [tracer.S(x["id"]) for x in e["sensors"]]
+        engs[tracer.E(e["unique_id"])] = {"targets": sorted(ts), "sensors": sorted(ss),
+                                          "policy": POLICY[e["decision"]["name"]]}
+        init_t += ts
+        init_s += ss
+    uni_t = set(init_t) | {m["who"] for m in events_meta if m["kind"] == "addTarget"}
+    uni_s = set(init_s) | {m["who"] for m in events_meta if m["kind"] == "addSensor"}
     return {
-        "targets": [tracer.T(t) for t in tids],
-        "sensors": [tracer.S(s) for s in sids],
-        "engines": {tracer.E(e): {"targets": [tracer.T(t) for t in en.target_list],
-                                  "sensors": [tracer.S(s) for s in en.sensor_list],
-                                  "policy": POLICY[type(en.decision).__name__]} for e, en in sorted(eng.items())},
-        "nsteps": n_span_steps,
+        "targets": sorted(uni_t), "sensors": sorted(uni_s),
+        "init_targets": sorted(set(init_t)), "init_sensors": sorted(set(init_s)),
+        "engines": engs,
+        "nsteps": n_span_steps, "dt": int(cfg["time"]["physics_step_sec"]),
         "out_every": out_every,
+        "events": [{k: m[k] for k in ("id", "kind", "t0", "t1", "who", "eng", "tgt", "planned")} for m in events_meta],
         "estimation": not cfg["propagation"].get("truth_simulation_only", False),
-        "serendipity": True,
-        "flags": flags or {"ResetChangesPerJob": False, "MissListSquared": False, "KeepMissedAcrossSteps": False},
+        "serendipity": True, "faults": True,
+        "flags": flags or {},
     }
 
 
@@ -162,49 +171,65 @@ def _tla_set(xs):
     return "{" + ", ".join(json.dumps(x) for x in xs) + "}"
 
 
+FLAGS = ["ResetChangesPerJob", "MissListSquared", "KeepMissedAcrossSteps", "PriorityToAllEngines", "PruneKeepsEqual"]
+
+
 def trace_module(g: dict) -> tuple[str, str]:
     """(module text, cfg text) binding Resonaate's constants to one group's literal values."""
     engs = g["engines"]
+    B = lambda b: "TRUE" if b else "FALSE"  # noqa: E731
 
     def fn(field):
+        if not engs:
+            return "[e \\in cE |-> {}]"
         cases = " [] ".join(f'e = {json.dumps(e)} -> {_tla_set(v[field])}' for e, v in engs.items())
         return f"[e \\in cE |-> CASE {cases}]"
     pol = " [] ".join(f'e = {json.dumps(e)} -> {json.dumps(v["policy"])}' for e, v in engs.items())
+    evs = ", ".join(
+        f'[id |-> {json.dumps(m["id"])}, kind |-> {json.dumps(m["kind"])}, t0 |-> {m["t0"]}, t1 |-> {m["t1"]}, '
+        f'who |-> {json.dumps(m["who"])}, eng |-> {json.dumps(m["eng"])}, tgt |-> {json.dumps(m["tgt"])}, '
+        f'planned |-> {B(m["planned"])}]' for m in g["events"])
     mod = f"""---- MODULE TraceMC ----
 EXTENDS TraceResonaate
 cT == {_tla_set(g['targets'])}
 cS == {_tla_set(g['sensors'])}
+cIT == {_tla_set(g['init_targets'])}
+cIS == {_tla_set(g['init_sensors'])}
 cE == {_tla_set(list(engs))}
 cET == {fn('targets')}
 cES == {fn('sensors')}
-cPol == [e \\in cE |-> CASE {pol}]
+cPol == [e \\in cE |-> {('CASE ' + pol) if engs else '"none"'}]
+cEvents == {{{evs}}}
 ====
 """
-    f = g["flags"]
-    B = lambda b: "TRUE" if b else "FALSE"  # noqa: E731
+    f = g.get("flags") or {}
     cfg = f"""SPECIFICATION TraceSpec
 CONSTANTS
   Targets <- cT
   Sensors <- cS
+  InitTargets <- cIT
+  InitSensors <- cIS
   Engines <- cE
   EngTargets <- cET
   EngSensors <- cES
   Policy <- cPol
+  Events <- cEvents
   NSteps = {g['nsteps']}
+  Dt = {g['dt']}
   OutEvery = {g['out_every']}
   WithEstimation = {B(g['estimation'])}
   WithSerendipity = {B(g['serendipity'])}
-  ResetChangesPerJob = {B(f['ResetChangesPerJob'])}
-  MissListSquared = {B(f['MissListSquared'])}
-  KeepMissedAcrossSteps = {B(f['KeepMissedAcrossSteps'])}
-INVARIANT Accept
-"""
+  WithFaults = {B(g.get('faults', True))}
+""" + "".join(f"  {name} = {B(f.get(name, False))}\n" for name in FLAGS) + "INVARIANT Accept\n"
     return mod, cfg
 
 
 SYSTEM_INVARIANTS = ["OneRecordPerTasking", "NoRecordWithoutTasking", "PointingReflectsTasking",
                      "LastStepMissesOnly", "RowsExact", "StepResultIsCanonical", "OnlyVisibleTasked",
-                     "TruthAtClock", "EstimatesAtClock", "DbComplete", "DbNoDup", "DbRefs", "ObsRowsHaveEpoch"]
+                     "TruthAtClock", "EstimatesAtClock", "DbComplete", "DbNoDup", "DbRefs",
+                     "ExactlyOnceInstant", "DurationActiveExactly", "OnlyAddressee", "DvOnce", "NeverTwice",
+                     "BiasActiveExactly"]
+SYSTEM_PROPERTIES = ["NonInterference", "CommitAtomic"]
 
 
 def validate(ctx, g: dict, traces: list, name: str, invariants=None, skip_invariants=()):
@@ -215,6 +240,7 @@ def validate(ctx, g: dict, traces: list, name: str, invariants=None, skip_invari
     mod, cfg = trace_module(g)
     invs = [i for i in (invariants or SYSTEM_INVARIANTS) if i not in skip_invariants]
     cfg += "".join(f"INVARIANT {i}\n" for i in invs)
+    cfg += "".join(f"PROPERTY {p}\n" for p in SYSTEM_PROPERTIES)
     (d / "TraceMC.tla").write_text(mod)
     (d / "traces.json").write_text(json.dumps(traces))
     res = tlc.run_tlc("TraceMC", cfg, d, workers=min(ctx.cpus, max(1, len(traces))), cont=True,
